@@ -82,6 +82,8 @@ func pngLexerCmd(args []string) error {
 		"iCCPbad": iccp(0, stored(profiles["p1"], true)),
 		"iCCPm1":  iccp(1, stored(profiles["p1"], false)),
 		"iCCP3":   chunk("iCCP", []byte{'a', 0, 0}),
+		"iCCPn79": chunk("iCCP", append(append(bytes.Repeat([]byte{'n'}, 79), 0, 0), stored(profiles["p1"], false)...)),
+		"iCCPn80": chunk("iCCP", append(bytes.Repeat([]byte{'n'}, 80), stored(profiles["p1"], false)...)),
 		"tEXt":    chunk("tEXt", []byte{'k', 0}),
 		"IDAT":    chunk("IDAT", nil),
 		"IEND":    chunk("IEND", nil),
